@@ -184,6 +184,17 @@ class SymE(object):
             return tuple(self._in(x) for x in v)
         return v
 
+    def elementwise_loop(self, qual, which=0):
+        """side condition of the generic-element rule (pyvc/loops.py): loop number `which` of function `qual` is
+        element-wise on the current source; otherwise the obligation is undecided"""
+        from . import loops
+        from .engine import Undecided
+
+        try:
+            loops.check(self.ip.tree, qual, which)
+        except loops.NotElementwise as e:
+            raise Undecided("generic-element rule not applicable to %s loop %d: %s" % (qual, which, e))
+
     def feasibility_budget(self, ms):
         """time given to each branch-feasibility query (no answer = explored as feasible; vacuous paths are harmless)"""
         self.e.feas_timeout_ms = ms
@@ -636,6 +647,9 @@ class ConcE(object):
         return View(o, self)
 
     def side_conditions(self, on=True):
+        pass
+
+    def elementwise_loop(self, qual, which=0):
         pass
 
     def feasibility_budget(self, ms):
